@@ -56,8 +56,19 @@ def live_src(r, name, form):
     return head + 'class %s(object):\n    """\n    A holder\n    """\n\n    def __init__(self, %s):\n        """\n        Make one\n\n%s        """\n        self.x = 1\n' % (name, sig, ind)
 
 
+# hand-written definitions with bare container types (`list`, `dict`, `tuple`): what one conversion learns about such a
+# type name must not leak into the next
+HAND = [
+    ("argparse", 'def set_cli_args(argument_parser):\n    """\n    Set CLI arguments\n\n    :param argument_parser: argument parser\n    :type argument_parser: ```ArgumentParser```\n\n    :returns: argument_parser\n    :rtype: ```ArgumentParser```\n    """\n    argument_parser.description = "A model"\n    argument_parser.add_argument("--layers", type=list, required=True, help="the layers")\n    argument_parser.add_argument("--extras", type=dict, required=True, help="the extras")\n    argument_parser.add_argument("--shape", type=tuple, required=True, help="the shape")\n    return argument_parser\n'),
+    ("class", 'class Net(object):\n    """\n    A net\n\n    :cvar layers: the layers\n    :cvar extras: the extras\n    :cvar shape: the shape\n    """\n\n    layers: list = None\n    extras: dict = None\n    shape: tuple = None\n'),
+    ("function", 'def build(layers: list, extras: dict = None, shape: tuple = None):\n    """\n    Build it\n\n    :param layers: the layers\n\n    :param extras: the extras\n\n    :param shape: the shape\n    """\n    return layers\n'),
+]
+
+
 def make_jobs(r, n):
-    jobs = []
+    jobs = [{"id": "h%d%s" % (k, to[0]), "kind": "hand", "from": frm, "src": src, "to": to}
+            for k, (frm, src) in enumerate(HAND) for to in ("class", "function", "argparse")]  # fmt: skip
+    r.shuffle(jobs)
     for i in range(n):
         k = r.random()
         if k < 0.1:
